@@ -262,7 +262,7 @@ def generic_replay(module, rp):
     raise KeyError(rp['job'])
 
 
-def standard_jobs(tier, job_fn, cyclic=False, light=False, no_w2=False):
+def standard_jobs(tier, job_fn, cyclic=False, light=False, no_w2=False, skip_thorough=()):
     """light: names of configurations to leave out of the quick tier (unsat proofs that take more than ~4 minutes)"""
     cfgs = []
     for hard, soft in graphs(2):
@@ -296,5 +296,7 @@ def standard_jobs(tier, job_fn, cyclic=False, light=False, no_w2=False):
     out = []
     for n, hard, soft, w in cfgs:
         c = Config(n, hard, soft, w)
+        if tier == 'thorough' and cfg_name(c) in skip_thorough:
+            continue
         out.append((cfg_name(c), job_fn, dict(n=n, hard=hard, soft=soft, w=w, tier=tier)))
     return out
